@@ -59,5 +59,9 @@ func TryAbsToRel(abs string) string {
 // IsExtOnly checks whether path points to a file with no name but with
 // an extension, i.e. ".yaml"
 func IsExtOnly(path string) bool {
+	// ("." names the directory itself: it is no extension)
+	if filepath.Base(path) == "." {
+		return false
+	}
 	return filepath.Base(path) == filepath.Ext(path)
 }
